@@ -26,6 +26,32 @@ def build_cases(rng, tier):
             if i % 5 == 1:
                 c['extra_options'] = ["array"]
         cases.append(c)
+    # multi-line text collected piecewise with yymore() (the manual's comment idiom): the kept text holds newlines and the rule
+    # that continues it can match newlines itself; %array and %pointer, every back end
+    for j in range(16 if tier == "quick" else 160):
+        r = rng.fork("kept%d" % j)
+        be = ['nr', 'r', 'c99', 'c99', 'nr', 'r', 'cxx', 'c99'][j % 8]
+        nl = ('cls', ('set', False, [('ch', 97), ('ch', 98), ('ch', 10)]))
+        prog = {'csize': 256, 'caseins': False, 'scs': [], 'rules': [
+            {'head': ('plus', nl), 'bol': False, 'scs': None, 'trail': None},                                   # [ab\n]+   yymore()
+            {'head': ('c', 59), 'bol': False, 'scs': None, 'trail': None},                                      # ;
+            {'head': ('cat', ('plus', ('c', 120)), ('opt', ('c', 10))), 'bol': False, 'scs': None, 'trail': None},   # x+\n?   yymore()
+            {'head': ('cat', ('c', 10), ('c', 121)), 'bol': False, 'scs': None, 'trail': None}]}                # \ny
+        acts = {1: [('more',)]}
+        if j % 4 >= 2:
+            acts[3] = [('more',)]
+        srcs = []
+        for k in range(3):
+            w = []
+            for _ in range(r.rng(3, 9)):
+                w += r.pick([[97, 98, 10, 97], [97, 10, 10, 98, 10], [59], [120, 120, 10], [10, 121], [32], [98], [120], [59, 10]])
+            srcs.append([w + [59, 10]])
+        c = {'id': "k%d" % j, 'runs': None, 'prog': prog, 'acts': acts, 'eofs': {}, 'eof_unq': None, 'lineno': True, 'backend': be,
+             'flex_opts': list(r.pick([[], ["-Cf"], ["-Ce"], ["-Cm"]])) + ["-8"], 'sources': srcs, 'seed': r.s,
+             'focus': ['edit', 'lineno', 'more'], 'text': ''}
+        if j % 2 == 0 and be != 'cxx':
+            c['extra_options'] = ["array"]
+        cases.append(c)
     return cases
 
 
